@@ -89,6 +89,10 @@ def cdrfileOp : Tok → String
     match pFile t with
     | some (f, []) => "ok " ++ hexOfBytes (encodeFile f)
     | _ => "bad-op"
+  | "conc" :: t =>      -- written by several goroutines at once: the same octets as when written alone
+    match pFile t with
+    | some (f, []) => "ok " ++ hexOfBytes (encodeFile f)
+    | _ => "bad-op"
   | ["dec", h] =>
     match bytesOfHex h with
     | some b => match decodeFile b with
